@@ -152,7 +152,12 @@ func VerifC04Listen() {
 	var log c04log
 	opts := []midi.Option{midi.UseSysEx(), midi.UseTimeCode(), midi.UseActiveSense()}
 	if sb := zz.Param("sxbuf"); sb > 0 {
-		opts = append(opts, midi.SysExBufferSize(uint32(sb))) // sysex of up to sb bytes in total must get through
+		// sysex of up to sb bytes in total must get through; the options may come in either order
+		if zz.Choice("buffer-size-option-first", 2) == 1 {
+			opts = append([]midi.Option{midi.SysExBufferSize(uint32(sb))}, opts...)
+		} else {
+			opts = append(opts, midi.SysExBufferSize(uint32(sb)))
+		}
 	}
 	stop, err := midi.ListenTo(ins[0], log.recv, opts...)
 	zz.Assert(err == nil, "listen:ok")
